@@ -172,7 +172,17 @@ class DefaultFormatter(BaseFormatter):
             Formatted comment string
         """
 
-        return self._comment_template.format(text)
+        # A comment must stay on its own line and inside its delimiters,
+        # otherwise the text after a line break or after the closing
+        # symbol would be executed by the machine as G-code.
+
+        prefix, _, suffix = self._comment_template.partition("{}")
+        text = " ".join(text.splitlines())
+
+        if suffix.strip():
+            text = text.replace(suffix.strip(), " ")
+
+        return f"{prefix}{text}{suffix}"
 
     @typechecked
     def command(self,
